@@ -2,7 +2,8 @@ import Infretis.Lemmas.Template
 /-!
 Lemmas for the editors as they are after the two repairs in /repo
 (`modifyLines` / `modifyInput` with the newline before the first appended setting, eaf64e1;
-`wfrVars` / `wfrLines` / `writeForRun` with `not_found.pop(var, None)`, f746fff).
+`wfrVarsSub` / `wfrLinesSub` / `writeForRunSub` with `not_found.pop(var, None)`, f746fff — RECORD;
+`wfrVars` / `wfrLines` / `writeForRun` with the whole-word replacement, 48a6c1e).
 -/
 namespace Infretis.Template
 
@@ -329,10 +330,10 @@ theorem outLines_idem {s : Settings} (hs : WFSettings s) (ls : List Str) (h : Li
       obtain ⟨k, v, hm, _, rfl⟩ := appended_mem hl
       simpa using editOut_newLine hs hm
 
-/-! ### `write_for_run` with `pop(var, None)` -/
+/-! ### RECORD: `write_for_run` with `pop(var, None)` and substring `str.replace` (code between f746fff and 48a6c1e) -/
 
-theorem wfrVars_fst (spl : List Str) : ∀ (s : Settings) (line : Str) (nf : List Str),
-    (wfrVars spl s line nf).1 = substLine spl s line := by
+theorem wfrVarsSub_fst (spl : List Str) : ∀ (s : Settings) (line : Str) (nf : List Str),
+    (wfrVarsSub spl s line nf).1 = substLine spl s line := by
   intro s
   induction s with
   | nil => intro _ _; rfl
@@ -340,8 +341,106 @@ theorem wfrVars_fst (spl : List Str) : ∀ (s : Settings) (line : Str) (nf : Lis
     intro line nf
     obtain ⟨k, v⟩ := kv
     by_cases h : k ∈ spl
-    · simp only [wfrVars, substLine, h, if_true]; exact ih _ _
-    · simp only [wfrVars, substLine, h, if_false]; exact ih _ _
+    · simp only [wfrVarsSub, substLine, h, if_true]; exact ih _ _
+    · simp only [wfrVarsSub, substLine, h, if_false]; exact ih _ _
+
+theorem wfrVarsSub_snd (spl : List Str) : ∀ (s : Settings) (line : Str) (nf : List Str), nf.Nodup →
+    (wfrVarsSub spl s line nf).2.Nodup ∧
+    ∀ k, k ∈ (wfrVarsSub spl s line nf).2 ↔ (k ∈ nf ∧ ¬ (k ∈ keys s ∧ k ∈ spl)) := by
+  intro s
+  induction s with
+  | nil => intro _ nf h; exact ⟨h, by simp [wfrVarsSub, keys]⟩
+  | cons kv t ih =>
+    intro line nf hnf
+    obtain ⟨var, v⟩ := kv
+    by_cases h : var ∈ spl
+    · simp only [wfrVarsSub, h, if_true]
+      obtain ⟨a, b⟩ := ih (replaceAll var v line) (nf.erase var) (hnf.erase _)
+      refine ⟨a, fun k => ?_⟩
+      rw [b k]
+      simp only [keys, List.map_cons, List.mem_cons]
+      by_cases e : k = var
+      · subst e; simp [h, hnf.not_mem_erase]
+      · rw [List.mem_erase_of_ne e]; simp [e]
+    · simp only [wfrVarsSub, h, if_false]
+      obtain ⟨a, b⟩ := ih line nf hnf
+      refine ⟨a, fun k => ?_⟩
+      rw [b k]
+      simp only [keys, List.map_cons, List.mem_cons]
+      by_cases e : k = var
+      · subst e; simp [h]
+      · simp [e]
+
+/-- invariant of the line loop: everything is written; the call ends without error iff every
+    variable still in `not_found` is a token of one of the remaining lines -/
+theorem wfrLinesSub_spec' (s : Settings) : ∀ (lines : List Str) (nf acc : List Str), nf.Nodup →
+    (∀ k ∈ nf, k ∈ keys s) →
+    (wfrLinesSub s lines nf acc).written = acc.reverse ++ lines.map (substOf s) ∧
+    ((wfrLinesSub s lines nf acc).err = none ↔ ∀ k ∈ nf, 1 ≤ occ k lines) ∧
+    ((wfrLinesSub s lines nf acc).err = some .value ↔ ∃ k ∈ nf, occ k lines = 0) := by
+  intro lines
+  induction lines with
+  | nil =>
+    intro nf acc _ _
+    simp only [wfrLinesSub, occ, List.filter_nil, List.length_nil, List.map_nil, List.append_nil, true_and]
+    cases nf with
+    | nil => simp
+    | cons a t =>
+      simp only [List.isEmpty_cons, Bool.false_eq_true, if_false, reduceCtorEq, false_iff, true_iff]
+      exact ⟨fun h => by have := h a (by simp); omega, ⟨a, by simp, trivial⟩⟩
+  | cons line t ih =>
+    intro nf acc hnf hsub
+    obtain ⟨hn', hmem⟩ := wfrVarsSub_snd (splitWS line) s line nf hnf
+    have hsub' : ∀ k ∈ (wfrVarsSub (splitWS line) s line nf).2, k ∈ keys s :=
+      fun k hk => hsub k ((hmem k).1 hk).1
+    obtain ⟨i1, i2, i3⟩ := ih _ ((wfrVarsSub (splitWS line) s line nf).1 :: acc) hn' hsub'
+    have hstep : wfrLinesSub s (line :: t) nf acc =
+        wfrLinesSub s t (wfrVarsSub (splitWS line) s line nf).2 ((wfrVarsSub (splitWS line) s line nf).1 :: acc) := rfl
+    rw [hstep]
+    refine ⟨?_, ?_, ?_⟩
+    · rw [i1, wfrVarsSub_fst]; simp [substOf]
+    · rw [i2]
+      constructor
+      · intro h k hk
+        rw [occ_cons]
+        by_cases hs : k ∈ splitWS line
+        · simp only [hs, if_true]; omega
+        · have : k ∈ (wfrVarsSub (splitWS line) s line nf).2 := (hmem k).2 ⟨hk, fun h' => hs h'.2⟩
+          have := h k this
+          simp only [hs, if_false]; omega
+      · intro h k hk
+        obtain ⟨hk1, hk2⟩ := (hmem k).1 hk
+        have hs : k ∉ splitWS line := fun hs => hk2 ⟨hsub k hk1, hs⟩
+        have := h k hk1
+        rw [occ_cons] at this
+        simp only [hs, if_false] at this
+        omega
+    · rw [i3]
+      constructor
+      · rintro ⟨k, hk, h0⟩
+        obtain ⟨hk1, hk2⟩ := (hmem k).1 hk
+        have hs : k ∉ splitWS line := fun hs => hk2 ⟨hsub k hk1, hs⟩
+        exact ⟨k, hk1, by rw [occ_cons]; simp only [hs, if_false]; omega⟩
+      · rintro ⟨k, hk, h0⟩
+        rw [occ_cons] at h0
+        have hs : k ∉ splitWS line := by
+          intro hs; simp only [hs, if_true] at h0; omega
+        simp only [hs, if_false] at h0
+        exact ⟨k, (hmem k).2 ⟨hk, fun h' => hs h'.2⟩, by omega⟩
+
+/-! ### `write_for_run` as it is now (48a6c1e): `pop(var, None)` and whole-word `re.sub` -/
+
+theorem wfrVars_fst (spl : List Str) : ∀ (s : Settings) (line : Str) (nf : List Str),
+    (wfrVars spl s line nf).1 = substLineW spl s line := by
+  intro s
+  induction s with
+  | nil => intro _ _; rfl
+  | cons kv t ih =>
+    intro line nf
+    obtain ⟨k, v⟩ := kv
+    by_cases h : k ∈ spl
+    · simp only [wfrVars, substLineW, h, if_true]; exact ih _ _
+    · simp only [wfrVars, substLineW, h, if_false]; exact ih _ _
 
 theorem wfrVars_snd (spl : List Str) : ∀ (s : Settings) (line : Str) (nf : List Str), nf.Nodup →
     (wfrVars spl s line nf).2.Nodup ∧
@@ -354,7 +453,7 @@ theorem wfrVars_snd (spl : List Str) : ∀ (s : Settings) (line : Str) (nf : Lis
     obtain ⟨var, v⟩ := kv
     by_cases h : var ∈ spl
     · simp only [wfrVars, h, if_true]
-      obtain ⟨a, b⟩ := ih (replaceAll var v line) (nf.erase var) (hnf.erase _)
+      obtain ⟨a, b⟩ := ih (reSubWord var v line) (nf.erase var) (hnf.erase _)
       refine ⟨a, fun k => ?_⟩
       rw [b k]
       simp only [keys, List.map_cons, List.mem_cons]
@@ -374,7 +473,7 @@ theorem wfrVars_snd (spl : List Str) : ∀ (s : Settings) (line : Str) (nf : Lis
     variable still in `not_found` is a token of one of the remaining lines -/
 theorem wfrLines_spec' (s : Settings) : ∀ (lines : List Str) (nf acc : List Str), nf.Nodup →
     (∀ k ∈ nf, k ∈ keys s) →
-    (wfrLines s lines nf acc).written = acc.reverse ++ lines.map (substOf s) ∧
+    (wfrLines s lines nf acc).written = acc.reverse ++ lines.map (substOfW s) ∧
     ((wfrLines s lines nf acc).err = none ↔ ∀ k ∈ nf, 1 ≤ occ k lines) ∧
     ((wfrLines s lines nf acc).err = some .value ↔ ∃ k ∈ nf, occ k lines = 0) := by
   intro lines
@@ -397,7 +496,7 @@ theorem wfrLines_spec' (s : Settings) : ∀ (lines : List Str) (nf acc : List St
         wfrLines s t (wfrVars (splitWS line) s line nf).2 ((wfrVars (splitWS line) s line nf).1 :: acc) := rfl
     rw [hstep]
     refine ⟨?_, ?_, ?_⟩
-    · rw [i1, wfrVars_fst]; simp [substOf]
+    · rw [i1, wfrVars_fst]; simp [substOfW]
     · rw [i2]
       constructor
       · intro h k hk
